@@ -582,7 +582,7 @@ def walk_nlri(afi, safi, data, add_path=False, unreach=False):
         _walk_prefixes(data, maxbits, ap, where, probs, 'mp-nlri', 'mp-nlri')
     elif safi == 4 and maxbits:
         _walk_labeled(data, maxbits, 0, ap, unreach, where, probs)
-    elif safi in (128, 129) and maxbits and safi == 128:
+    elif safi == 128 and maxbits:
         _walk_labeled(data, maxbits, 64, ap, unreach, where, probs)
     elif (afi, safi) == (25, 70):
         _walk_evpn(data, ap, where, probs)
